@@ -689,7 +689,7 @@ func c03Corpus(c *runner.Ctx, idx uint64) {
 	}
 	// accepted calls and slices that must simply work (a failure with a nil in
 	// its message is otherwise counted as a value reason)
-	for _, src := range []string{"FnPIt(nil)", "FnPIt(nil) + 1", "FnInts(nil)", "FnPIt(NilIt)", "It.Plus(1)", "FnInts(Arr3[0:2])", "Arr3[1:]", "Arr3[0:2] == [7, 8]", "len(Arr3[:1])", "ArrS[0:1]"} {
+	for _, src := range []string{"MS.a + \"!\" == \"x!\" and MI.a + 1 == 2", "MI.a + 1 == 2 and MS.a + \"!\" == \"x!\"", "[MI.foobar, MS.foobar, MA.a]", "SumF(1, 2) + SumF()", "FnPIt(nil)", "FnPIt(nil) + 1", "FnInts(nil)", "FnPIt(NilIt)", "It.Plus(1)", "FnInts(Arr3[0:2])", "Arr3[1:]", "Arr3[0:2] == [7, 8]", "len(Arr3[:1])", "ArrS[0:1]"} {
 		c.Begin("must-work: " + src)
 		p, co := SafeCompile(src, expr.Env(envs.Env{}))
 		c.Eval(1)
@@ -797,7 +797,9 @@ func c03Corpus(c *runner.Ctx, idx uint64) {
 		"Half(A % 2)", "Half(7 % 2)", "FnF(A)", "FnF(len(Ints))", "FnF32(I64)", "FnI(X)", "FnI64(X * 2)", "FnU8(S)",
 		// membership in a map needs a key-typed left operand; maps cannot be sliced; nil is not an int, string or bool argument; computed map keys are strings
 		"A in MI", "1 in MI", "A not in MI", "X in MI", "P in MI", "MI[0:1]", "MI[:]", "{\"a\": 1}[:]", "MA[1:]", "FnI(nil)", "A + FnI(nil)", "FnS(nil)", "FnB(nil)", "FnF(nil)", "FnItem(nil)", "FnII(1, nil)",
-		"{(1): 2}", "{(A): 2}", "{(P): 2}", "{(X): 1, \"b\": 2}", "all(Ints, {nil})", "filter(Ints, {nil})", "count(Items, {nil})"} {
+		"{(1): 2}", "{(A): 2}", "{(P): 2}", "{(X): 1, \"b\": 2}", "all(Ints, {nil})", "filter(Ints, {nil})", "count(Items, {nil})",
+		// the same member name on two unnamed map types; ordering against nil
+		"MI.a + MS.a", "MS.a + MI.a", "MS.a - 1", "MI.a contains \"x\"", "[MS.a, MI.a][0] == nil or MI.a + MS.a == 1", "S < nil", "nil >= S", "any(Strs, {# <= nil})", "A < nil", "nil > X", "S > \"a\" and \"z\" < nil"} {
 		c.Begin(src)
 		_, co := SafeCompile(src, expr.Env(envs.Env{}))
 		c.Eval(1)
